@@ -39,6 +39,11 @@ func (seg Segment) Raycast(point Point) RaycastResult {
 					return RaycastResult{false, true}
 				}
 			}
+		} else {
+			// a horizontal segment that is not level with the point is never
+			// hit. The slope test below would compare x/dx with y/0, which
+			// are both +Inf when x/dx overflows.
+			return RaycastResult{false, false}
 		}
 	}
 	if a.X == b.X && p.X == b.X {
